@@ -1,0 +1,107 @@
+//! C04 / C05 — storage fault and crash injector.
+//!
+//! `storage_point(label)` is called (behind `cfg(feature = "verif-hooks")`) right before
+//! every SQLite statement / BEGIN / COMMIT issued by `be/idl_sqlite.rs`. A thread-local
+//! policy installed by the verification harness decides what happens at the n-th point
+//! (counted from 1 since `install`):
+//!   * `Off`      – nothing (default; the server behaves exactly as without the feature),
+//!   * `Log`      – only record the label,
+//!   * `Fail(n)`  – record, and make the n-th point return `OperationError::SqliteError`
+//!                  instead of running its statement (one shot),
+//!   * `Abort(n)` – record, and `abort()` the process at the n-th point (before its statement).
+//! `crash_point(label)` is a point that can only be logged / aborted at, never failed
+//! (used right after COMMIT returned, where no error can be reported any more).
+use crate::prelude::OperationError;
+use std::cell::RefCell;
+
+#[derive(Clone, Copy, Debug, PartialEq, Eq)]
+pub enum Policy {
+    Off,
+    Log,
+    Fail(u64),
+    Abort(u64),
+}
+
+struct State {
+    policy: Policy,
+    count: u64,
+    log: Vec<&'static str>,
+    hit: Option<&'static str>,
+}
+
+thread_local! {
+    static STATE: RefCell<State> = const { RefCell::new(State {
+        policy: Policy::Off,
+        count: 0,
+        log: Vec::new(),
+        hit: None,
+    }) };
+}
+
+/// Install a policy for the current thread and reset the counter and the log.
+pub fn install(policy: Policy) {
+    STATE.with(|s| {
+        let mut s = s.borrow_mut();
+        s.policy = policy;
+        s.count = 0;
+        s.log.clear();
+        s.hit = None;
+    });
+}
+
+/// Number of storage points passed since `install`.
+pub fn count() -> u64 {
+    STATE.with(|s| s.borrow().count)
+}
+
+/// Switch the injector off and return (points passed, labels in order, label that was failed).
+pub fn take() -> (u64, Vec<&'static str>, Option<&'static str>) {
+    STATE.with(|s| {
+        let mut s = s.borrow_mut();
+        s.policy = Policy::Off;
+        let log = std::mem::take(&mut s.log);
+        (s.count, log, s.hit.take())
+    })
+}
+
+fn visit(label: &'static str, failable: bool) -> Result<(), OperationError> {
+    STATE.with(|s| {
+        let mut s = s.borrow_mut();
+        match s.policy {
+            Policy::Off => Ok(()),
+            Policy::Log => {
+                s.count += 1;
+                s.log.push(label);
+                Ok(())
+            }
+            Policy::Fail(n) => {
+                s.count += 1;
+                s.log.push(label);
+                if failable && s.count == n && s.hit.is_none() {
+                    s.hit = Some(label);
+                    Err(OperationError::SqliteError)
+                } else {
+                    Ok(())
+                }
+            }
+            Policy::Abort(n) => {
+                s.count += 1;
+                s.log.push(label);
+                if s.count == n {
+                    std::process::abort();
+                }
+                Ok(())
+            }
+        }
+    })
+}
+
+/// A point right before a SQLite statement: may be failed or aborted at.
+pub fn storage_point(label: &'static str) -> Result<(), OperationError> {
+    visit(label, true)
+}
+
+/// A point where only a crash can be injected (no error path exists in the code).
+pub fn crash_point(label: &'static str) {
+    let _ = visit(label, false);
+}
